@@ -92,7 +92,12 @@ def run(ctx):
     n = 1500 if ctx.tier == "quick" else 40000
     chunk = 150 if ctx.tier == "quick" else 2000
     d = tempfile.mkdtemp(prefix="lokyv_c14_")
-    okb, msg = build() if pr["ok"] else (False, "proof not built")
+    if pr["ok"]:
+        okb, msg = build()
+    else:
+        # the property file does not build (e.g. the source tripwire): the model itself may still be usable as an oracle
+        okm, _ = vlib.coq_make(["Model/CondCheck.vo"])
+        okb, msg = build() if okm else (False, "model not built")
     jobs = [(ctx.seed * 1000000 + s, min(chunk, n - s)) for s in range(0, n, chunk)]
 
     def one(job):
@@ -181,7 +186,15 @@ def run(ctx):
                                                "searched": f"{total} simulated schedules of the real classes with the monitors: no failing input"})
         what = pr["broken"].get("lemma") or pr["broken"].get("kind")
         ctx.violations.append((f"{pr['broken']['kind']} ({what}) no longer checks", rp, True))
-    elif pr["ok"] and (rejected or not okb) and not ctx.violations:
+    if rejected and not any(not v[2] for v in ctx.violations):
+        ctx.violations = [v for v in ctx.violations if not v[2]]
+        rp = vlib.write_replay(ctx, "correspondence", {
+            "kind": "a trace of the real Condition is not a behaviour of coq/Model/Cond.v (or drives it into AssertFailed)",
+            "rejected": rejected[:10], "proof_status": pr.get("broken"),
+            "how_to_replay": "corr/sim/cond_sim.py <seed> 1 out.json tr.txt && coq/extract/cond_check tr.txt"})
+        ctx.violations.append((f"the real Condition leaves the proved model on {len(rejected)} of {traces} traces "
+                               f"(first: {rejected[0][0]} at event {rejected[0][1]})", rp, False))
+    elif pr["ok"] and not okb and not ctx.violations:
         rp = vlib.write_replay(ctx, "correspondence", {"kind": "trace validation against coq/Model/Cond.v failed",
                                                        "rejected": rejected[:10], "build": msg})
         ctx.violations.append((f"model/implementation correspondence broken on {len(rejected)} of {traces} traces (Model/Cond.v)", rp, True))
